@@ -392,6 +392,32 @@ def g_opthelp(s, P):
     return P
 
 
+def g_objective(s, P):
+    """the objective function behind every optimiser wrapper, on a real model, with bounds / fixed parameters"""
+    mid = s.choice(['two_epoch_raw', 'two_epoch_raw', 'growth_raw'])
+    f = {'$fn': 'model', 'id': mid}
+    ns = [s.choice([4, 6])]
+    pts = s.choice([[8, 10], [10, 12, 14], [10]])
+    ex = {'$fn': 'model', 'id': 'two_epoch' if mid == 'two_epoch_raw' else 'growth'}
+    truth = P.add('extrap_call', ex, [s.choice([0.5, 2.0]), s.choice([0.05, 0.1])], ns, pts)
+    data = P.add('S.scale', truth, s.choice([20.0, 100.0]))
+    for _ in range(s.randint(1, 3)):
+        p = [s.choice([0.5, 1.0, 2.0]), s.choice([0.02, 0.05, 0.1])]
+        kw = {'multinom': s.chance(0.6)}
+        if s.chance(0.5):
+            kw['lower_bound'] = [s.choice([None, 0.1, 1.5]), None]
+            kw['upper_bound'] = [s.choice([None, 10]), s.choice([None, 0.04])]
+        if s.chance(0.3):
+            kw['fixed_params'] = [None, 0.05]
+            p = [p[0]]
+        if s.chance(0.3):
+            kw['store_thetas'] = True
+        if s.chance(0.2):
+            kw['ll_scale'] = 10.0
+        P.add('object_func', p, data, ex, pts, **kw)
+    return P
+
+
 def g_inbreeding(s, P):
     pts = s.choice([8, 10])
     xx = P.add('grid', pts)
@@ -544,7 +570,7 @@ def g_interference(s, P):
 
 TEMPLATES = [
     (g_chain1d, 10), (g_chain2d, 12), (g_chain3d, 7), (g_chain4d, 6), (g_chain5d, 2), (g_spectrum, 10), (g_numerics, 7),
-    (g_lowpass, 4), (g_opthelp, 4), (g_inbreeding, 4), (g_extrap, 5), (g_demes, 6), (g_godambe, 8), (g_godambe_neg, 2), (g_godambe_real, 2),
+    (g_lowpass, 4), (g_opthelp, 4), (g_objective, 3), (g_inbreeding, 4), (g_extrap, 5), (g_demes, 6), (g_godambe, 8), (g_godambe_neg, 2), (g_godambe_real, 2),
 ]
 
 
